@@ -6,7 +6,8 @@
      `allNodesMIMO`), for every network and wiring;
   C. truncation: if no neuron, no module and no output reads a control node (`ctrlUnread`), erasing the whole
      control-node part of the state (`List.take nodes.length`) commutes with every operation and changes no
-     observation - the control-node state (`isActive`, `Activation`, ...), which `Network.Flush` never resets, is dead.
+     observation - the control-node state (`isActive`, `Activation`, ...) is dead (before repair 842abdd `Network.Flush`
+     did not reset it; that was harmless exactly under this wiring).
   Kind A: no arithmetic law (only `hz : lt 0 0 = false` for `FlushbackCheck`).
 -/
 import GoNeat.Proofs.SolverFlush
@@ -76,19 +77,9 @@ theorem recursiveSteps_refine (net : Net W) (σ : Nat → W → Option W) (μ : 
   unfold SolverMod.recursiveSteps Solver.recursiveSteps
   simp [h, forwardSteps_refine net σ μ _ h]
 
-theorem flushN_refine (n : Nat) (s : St W) (h : s.length ≤ n) : flushN n s = flushAux s := by
-  induction s generalizing n with
-  | nil => cases n <;> rfl
-  | cons a l ih =>
-    cases n with
-    | zero => simp at h
-    | succ n =>
-      unfold flushN flushAux
-      rw [ih n (by simpa using h)]
-
 /-- for a network without control nodes one call of the modular model is the call of Model/Solver.lean -/
 theorem step_refine (net : Net W) (σ : Nat → W → Option W) (μ : Nat → List W → Option (List W))
-    (h : net.ctrl = []) (s : St W) (hl : s.length ≤ net.nodes.length) (op : Op W) :
+    (h : net.ctrl = []) (s : St W) (op : Op W) :
     SolverMod.step net σ μ s op = Solver.step net σ s op := by
   cases op with
   | load xs => simp only [SolverMod.step, Solver.step, SolverMod.loadSensors, flat_eq net h]
@@ -96,16 +87,14 @@ theorem step_refine (net : Net W) (σ : Nat → W → Option W) (μ : Nat → Li
   | forward n => exact forwardSteps_refine net σ μ n h s
   | recursive => exact recursiveSteps_refine net σ μ h s
   | relax => rfl
-  | flush => exact flushN_refine _ s hl
+  | flush => rfl
 
 theorem run_refine (net : Net W) (σ : Nat → W → Option W) (μ : Nat → List W → Option (List W))
-    (h : net.ctrl = []) (ops : List (Op W)) (s : St W) (hl : s.length ≤ net.nodes.length) :
+    (h : net.ctrl = []) (ops : List (Op W)) (s : St W) :
     SolverMod.run net σ μ ops s = Solver.run net σ ops s := by
   induction ops generalizing s with
   | nil => rfl
-  | cons op ops ih =>
-    have hl' : (Solver.step net σ s op).1.length ≤ net.nodes.length := by rw [length_step]; exact hl
-    simp only [SolverMod.run, Solver.run, step_refine net σ μ h s hl op, ih _ hl']
+  | cons op ops ih => simp only [SolverMod.run, Solver.run, step_refine net σ μ h s op, ih]
 
 /-! ## B. congruence with respect to `Equiv` (all indices) -/
 
@@ -256,22 +245,6 @@ theorem recursiveSteps_congr (net : Net W) (σ : Nat → W → Option W) (μ : N
   · rw [Equiv_visited h]
     exact forwardSteps_congr net σ μ _ (setVisited_congr _ h)
 
-theorem flushN_congr (hz : Scalar.lt (Scalar.zero : W) Scalar.zero = false) (n : Nat) {s t : St W} (h : Equiv s t) :
-    Equiv (flushN n s).1 (flushN n t).1 ∧ (flushN n s).2 = (flushN n t).2 := by
-  induction n generalizing s t with
-  | zero => simpa [flushN] using h
-  | succ n ih =>
-    cases s with
-    | nil => rw [Equiv_nil_left h]; exact ⟨Solver.R.refl _ _, rfl⟩
-    | cons a s =>
-      cases t with
-      | nil => have := h.1; simp at this
-      | cons b t =>
-        rw [Equiv_cons] at h
-        have := ih h.2
-        simp only [flushN, flushCheckFails_flushback hz, Bool.false_eq_true, if_false, Equiv_cons]
-        exact ⟨⟨flushback_congr h.1, this.1⟩, this.2⟩
-
 theorem step_congr (hz : Scalar.lt (Scalar.zero : W) Scalar.zero = false) (net : Net W) (σ : Nat → W → Option W)
     (μ : Nat → List W → Option (List W)) (op : Op W) {s t : St W} (h : Equiv s t) :
     Equiv (SolverMod.step net σ μ s op).1 (SolverMod.step net σ μ t op).1 ∧
@@ -285,7 +258,7 @@ theorem step_congr (hz : Scalar.lt (Scalar.zero : W) Scalar.zero = false) (net :
   | forward n => exact forwardSteps_congr net σ μ n h
   | recursive => exact recursiveSteps_congr net σ μ h
   | relax => exact ⟨h, rfl⟩
-  | flush => exact flushN_congr hz _ h
+  | flush => exact flush_congr hz h
 
 /-- `ActivationSum` is dead in modular networks too: states equal up to it (at every node, control nodes included)
     give the same observations under every call sequence -/
@@ -599,24 +572,15 @@ theorem forwardSteps_take (net : Net W) (σ : Nat → W → Option W) (μ : Nat 
   · exact ⟨rfl, rfl⟩
   · exact fwdLoop_take net σ μ hu n _ false s
 
-theorem flushN_take (n : Nat) (s : St W) :
-    (flushN n s).1.take n = (flushN n (s.take n)).1 ∧ (flushN n s).2 = (flushN n (s.take n)).2 := by
-  induction n generalizing s with
-  | zero => simp [flushN]
-  | succ n ih =>
-    cases s with
-    | nil => simp [flushN]
-    | cons a l =>
-      simp only [List.take_succ_cons, flushN]
-      split
-      · exact ⟨rfl, rfl⟩
-      · simp only [List.take_succ_cons]
-        exact ⟨by rw [(ih l).1], (ih l).2⟩
+theorem flushAux_take (hz : Scalar.lt (Scalar.zero : W) Scalar.zero = false) (s : St W) (k : Nat) :
+    (flushAux s).1.take k = (flushAux (s.take k)).1 ∧ (flushAux s).2 = (flushAux (s.take k)).2 := by
+  rw [flushAux_eq hz, flushAux_eq hz]
+  exact ⟨by simp [List.map_take], rfl⟩
 
 /-- one call on a network WITH control nodes, none of which is read: the control-node part of the state neither
     influences the observation nor the ordinary part of the next state -/
-theorem step_take (net : Net W) (σ : Nat → W → Option W) (μ : Nat → List W → Option (List W)) (hu : Unread net)
-    (hc : net.ctrl ≠ []) (s : St W) (op : Op W) :
+theorem step_take (hz : Scalar.lt (Scalar.zero : W) Scalar.zero = false) (net : Net W) (σ : Nat → W → Option W)
+    (μ : Nat → List W → Option (List W)) (hu : Unread net) (hc : net.ctrl ≠ []) (s : St W) (op : Op W) :
     (SolverMod.step net σ μ s op).1.take net.nodes.length = (SolverMod.step net σ μ (s.take net.nodes.length) op).1 ∧
       (SolverMod.step net σ μ s op).2 = (SolverMod.step net σ μ (s.take net.nodes.length) op).2 := by
   cases op with
@@ -633,16 +597,16 @@ theorem step_take (net : Net W) (σ : Nat → W → Option W) (μ : Nat → List
       | cons _ _ => simp
     simp [SolverMod.step, SolverMod.recursiveSteps, this]
   | relax => exact ⟨rfl, rfl⟩
-  | flush => exact flushN_take _ s
+  | flush => exact flushAux_take hz s _
 
-theorem run_take (net : Net W) (σ : Nat → W → Option W) (μ : Nat → List W → Option (List W)) (hu : Unread net)
-    (hc : net.ctrl ≠ []) (ops : List (Op W)) (s : St W) :
+theorem run_take (hz : Scalar.lt (Scalar.zero : W) Scalar.zero = false) (net : Net W) (σ : Nat → W → Option W)
+    (μ : Nat → List W → Option (List W)) (hu : Unread net) (hc : net.ctrl ≠ []) (ops : List (Op W)) (s : St W) :
     (SolverMod.run net σ μ ops s).1.take net.nodes.length = (SolverMod.run net σ μ ops (s.take net.nodes.length)).1 ∧
       (SolverMod.run net σ μ ops s).2 = (SolverMod.run net σ μ ops (s.take net.nodes.length)).2 := by
   induction ops generalizing s with
   | nil => exact ⟨rfl, rfl⟩
   | cons op ops ih =>
-    have hs := step_take net σ μ hu hc s op
+    have hs := step_take hz net σ μ hu hc s op
     have hr := ih (SolverMod.step net σ μ s op).1
     rw [hs.1] at hr
     simp only [SolverMod.run]
@@ -652,7 +616,7 @@ theorem run_take (net : Net W) (σ : Nat → W → Option W) (μ : Nat → List 
     unfold obsOf
     rw [← hs.2, ← hs.1, readOutputs_take net _ _ hu.outs]
 
-/-! ## D. lengths, and what `Flush` does to the first `n` cells -/
+/-! ## D. lengths -/
 
 theorem length_setOuts (ls : List (NLink W)) (vs : List W) (s : St W) : (setOuts ls vs s).length = s.length := by
   induction ls generalizing vs s with
@@ -743,19 +707,6 @@ theorem length_forwardSteps (net : Net W) (σ : Nat → W → Option W) (μ : Na
   · rfl
   · exact length_fwdLoop ..
 
-theorem length_flushN (n : Nat) (s : St W) : (flushN n s).1.length = s.length := by
-  induction n generalizing s with
-  | zero => rfl
-  | succ n ih =>
-    cases s with
-    | nil => rfl
-    | cons a l =>
-      unfold flushN
-      simp only
-      split
-      · rfl
-      · simp [ih]
-
 theorem length_step (net : Net W) (σ : Nat → W → Option W) (μ : Nat → List W → Option (List W)) (s : St W)
     (op : Op W) : (SolverMod.step net σ μ s op).1.length = s.length := by
   cases op with
@@ -772,32 +723,12 @@ theorem length_step (net : Net W) (σ : Nat → W → Option W) (μ : Nat → Li
     · rfl
     · simp [length_forwardSteps, length_setVisited]
   | relax => rfl
-  | flush => exact length_flushN _ s
+  | flush => exact length_flushAux s
 
 theorem length_run (net : Net W) (σ : Nat → W → Option W) (μ : Nat → List W → Option (List W)) (ops : List (Op W))
     (s : St W) : (SolverMod.run net σ μ ops s).1.length = s.length := by
   induction ops generalizing s with
   | nil => rfl
   | cons op ops ih => simp [SolverMod.run, ih, length_step]
-
-/-- `Network.Flush` succeeds and replaces exactly the first `n` cells by their `Flushback` -/
-theorem flushN_eq (hz : Scalar.lt (Scalar.zero : W) Scalar.zero = false) (n : Nat) (s : St W) :
-    flushN n s = ((s.take n).map flushback ++ s.drop n, true, none) := by
-  induction n generalizing s with
-  | zero => simp [flushN]
-  | succ n ih =>
-    cases s with
-    | nil => simp [flushN]
-    | cons a l => simp [flushN, flushCheckFails_flushback hz, ih]
-
-/-- the control-node cells survive `Flush` unchanged -/
-theorem flushN_drop (hz : Scalar.lt (Scalar.zero : W) Scalar.zero = false) (n : Nat) (s : St W) :
-    (flushN n s).1.drop n = s.drop n := by
-  induction n generalizing s with
-  | zero => simp [flushN]
-  | succ n ih =>
-    cases s with
-    | nil => simp [flushN]
-    | cons a l => simp [flushN, flushCheckFails_flushback hz, ih]
 
 end GoNeat.SolverMod
